@@ -290,11 +290,11 @@ def run(ctx):
                     alphabet=len(all_ops(cfg)))
                 if r['frontier']:
                     ctx.sample(dict(impl=impl, flavour=flavour, history=r['frontier'][len(r['frontier']) // 2]), limit=4)
-                if ctx.viol:
+                if ctx.unknown_viol():
                     break
-            if ctx.viol:
+            if ctx.unknown_viol():
                 break
-        if ctx.viol:
+        if ctx.unknown_viol():
             break
     ctx.count['traces_validated_against_impl'] = ctx.count['transitions']
     ctx.assumptions += ['order between entries that differ only in provided, and between crossing required tuples, is not constrained (not stated by the property)']
